@@ -2,6 +2,7 @@ package main
 
 import (
 	"fmt"
+	"time"
 	"math/big"
 	"go/token"
 	"go/types"
@@ -128,6 +129,9 @@ func (in *Interp) runRegion(fr *Frame, blk, prev, stop *ssa.BasicBlock, phisDone
 			}
 			in.cur = ins
 			in.stats.instrs++
+			if in.stats.instrs&4095 == 0 && !in.deadline.IsZero() && time.Now().After(in.deadline) {
+				panic(unsupported{"harness wall budget exhausted inside a path"})
+			}
 			in.exec(fr, ins)
 		}
 		term := blk.Instrs[n-1]
@@ -519,6 +523,7 @@ func (in *Interp) exec(fr *Frame, ins ssa.Instruction) {
 		}
 		ch.queue = append(ch.queue, in.get(fr, x.X))
 		ch.sends++
+		in.sendTotal++
 	default:
 		panic(unsupported{fmt.Sprintf("instruction %T", ins)})
 	}
@@ -778,6 +783,7 @@ func (in *Interp) unop(fr *Frame, x *ssa.UnOp) Value {
 		v := ch.queue[0]
 		ch.queue = ch.queue[1:]
 		ch.recvs++
+		in.recvTotal++
 		if x.CommaOk {
 			return TupleV{v, in.ts.True()}
 		}
@@ -988,8 +994,18 @@ func (in *Interp) refEqual(a, b Value) *Term {
 }
 
 func (in *Interp) repoFrame(fr *Frame) bool {
-	// loops of the harness itself are never cut
-	return !strings.Contains(fr.fn.Name(), "H_") && !strings.HasPrefix(fr.fn.Name(), "c1") && !strings.HasPrefix(fr.fn.Name(), "c0")
+	// loops of the harness files themselves (overlaid zz_*.go) are never cut
+	f := fr.fn
+	for f.Parent() != nil {
+		f = f.Parent()
+	}
+	if v, ok := in.harnessFn[f]; ok {
+		return !v
+	}
+	name := in.prog.Fset.Position(f.Pos()).Filename
+	isH := strings.Contains(name, "/zz_") || strings.Contains(name, "zzverif")
+	in.harnessFn[f] = isH
+	return !isH
 }
 
 // loopDepthVisits: the largest back-edge count among loop headers currently being iterated
